@@ -456,6 +456,9 @@ Section Sound.
       + inversion Hc; subst. apply Hgood. left. reflexivity.
       + destruct ascii eqn:Ea; [|discriminate]. inversion Hc; subst.
         destruct (Hmode eq_refl) as [Hl|Hf]; [apply Hlen; assumption|apply Hgood; right; assumption].
+    - (* TAh *)
+      rewrite (ahead_ok _ _ _ Hat0). cbn [obind]. inversion Hc; subst; clear Hc.
+      destruct (match nth_error suf i with Some x => ceval c x | None => false end); cbn; eauto.
   Qed.
 
   (** ** The main soundness theorem *)
